@@ -56,6 +56,7 @@ struct Fn
         case 0: return T(1) + T(4) * x0 * x0;
         case 1: return (x0 < T(0.4)) ? T(0.1) : T(3);
         case 2: return T(1) / (T(0.02) + (x0 - T(0.7)) * (x0 - T(0.7)));
+        case 3: return (x0 > T(0.9)) ? std::numeric_limits<T>::quiet_NaN() : T(1) + T(3) * x0; // non-finite in a region
         default: return T(1);
         }
     }
@@ -108,7 +109,7 @@ void run_vegas(vf::Ctx& c)
             for (std::size_t b = 1; b < bins; ++b) { start.set_bin_left(d, b, e[b - 1]); }
         }
     }
-    int const family = static_cast<int>(t.pick(4));
+    int const family = static_cast<int>(t.pick(5));
     std::uint64_t const sseed = t.stream_seed();
     std::uint64_t const mask = t.next(); // interruption boundaries
     bool const resumed = t.flag();
@@ -126,6 +127,8 @@ void run_vegas(vf::Ctx& c)
     if (!resumed) { chk = hep::vegas(ig, calls, chk, cut); }
     else
     {
+        // the start checkpoint itself may have been written out before the first iteration
+        if (mask >> 63) { chk.dimensions(dims); chk = through_text(chk, [](std::istream& in) { return hep::make_vegas_chkpt<T, E>(in); }); }
         std::size_t pos = 0;
         while (pos < iters)
         {
@@ -188,6 +191,8 @@ void run_vegas(vf::Ctx& c)
         "chkpt.pdf() is not the refinement of the last result");
     if (user) { c.label("user-state"); }
     if (resumed) { c.label("resumed"); }
+    if (resumed && (mask >> 63)) { c.label("start-checkpoint-through-text"); }
+    if (family == 3) { c.label("non-finite-region"); }
     c.label("VEGAS");
     c.nontrivial = (iters >= 2 && changed) || user;
 }
@@ -210,7 +215,7 @@ void run_multi(vf::Ctx& c)
     bool const user = t.flag();
     std::vector<T> w0;
     if (user) { w0 = vf::gen_weights<T>(t, channels); w0.resize(channels, T(1)); }
-    int const family = static_cast<int>(t.pick(4));
+    int const family = static_cast<int>(t.pick(5));
     std::uint64_t const sseed = t.stream_seed();
     std::uint64_t const mask = t.next();
     bool const resumed = t.flag();
@@ -229,6 +234,8 @@ void run_multi(vf::Ctx& c)
     if (!resumed) { chk = hep::multi_channel(ig, calls, chk, cut); }
     else
     {
+        // the start checkpoint itself may have been written out before the first iteration
+        if (mask >> 63) { chk.channels(channels); chk = through_text(chk, [](std::istream& in) { return hep::make_multi_channel_chkpt<T, E>(in); }); }
         std::size_t pos = 0;
         while (pos < iters)
         {
@@ -310,6 +317,8 @@ void run_multi(vf::Ctx& c)
         "C19:next-state", "chkpt.channel_weights() is not the refinement of the last result");
     if (user) { c.label("user-state"); }
     if (resumed) { c.label("resumed"); }
+    if (resumed && (mask >> 63)) { c.label("start-checkpoint-through-text"); }
+    if (family == 3) { c.label("non-finite-region"); }
     c.label("MULTI");
     c.nontrivial = (iters >= 2 && changed) || user;
 }
